@@ -22,6 +22,7 @@ CONSTANTS X,        \* variable names
           X0,       \* [X -> value] initial contents
           B,        \* builders
           Owner,    \* [X -> B] which builder mocks which variable (disjoint use, cf. C11)
+          Vias,     \* subset of {"lookup", "held"}: b.Var(&x) written out again / the VarMock value it returned earlier, kept
           MaxOps
 
 Unset == "unset"
@@ -40,35 +41,39 @@ Init == /\ val = X0
 \* Builder.Var(&x): the cached mocker is reused unless it was canceled
 Lookup(b, x) == IF mk[b][x].ex /\ ~mk[b][x].canceled THEN mk[b][x] ELSE [NoMk EXCEPT !.ex = TRUE]
 
-\* doSet: capture the origin once, write the value
-DoSet(m, x) == IF m.captured THEN m ELSE [m EXCEPT !.captured = TRUE, !.origin = val[x]]
+\* the mocker an instruction works on: a lookup, or the kept value of the last lookup (also when it was cancelled)
+Handle(b, x, via) == IF via = "held" THEN mk[b][x] ELSE Lookup(b, x)
+CanUse(b, x, via) == via \in Vias /\ (via = "held" => mk[b][x].ex)
+
+\* doSet: capture the origin once, write the value; a Set re-activates a cancelled mocker (since the fix of F27)
+DoSet(m, x) == IF m.captured THEN [m EXCEPT !.canceled = FALSE] ELSE [m EXCEPT !.captured = TRUE, !.origin = val[x], !.canceled = FALSE]
 
 \* defaultVarMocker.Cancel on record m for variable x: new contents of x
 CancelVal(m, cur) == IF m.captured THEN m.origin ELSE cur
 
 Log(rec) == hist' = Append(hist, rec)
 
-SetOp(opname, b, x, v) ==
-    /\ Owner[x] = b
-    /\ LET m == DoSet(Lookup(b, x), x) IN
+SetOp(opname, b, x, v, via) ==
+    /\ Owner[x] = b /\ CanUse(b, x, via)
+    /\ LET m == DoSet(Handle(b, x, via), x) IN
        /\ mk' = [mk EXCEPT ![b][x] = m]
        /\ val' = [val EXCEPT ![x] = v]
     /\ pre' = [pre EXCEPT ![b][x] = IF @ = Unset THEN rval[x] ELSE @]
     /\ rval' = [rval EXCEPT ![x] = v]
-    /\ Log([op |-> opname, b |-> b, x |-> x, v |-> v, obs |-> rval', panic |-> ""])
+    /\ Log([op |-> opname, b |-> b, x |-> x, v |-> v, via |-> via, obs |-> rval', panic |-> ""])
 
-Set(b, x, v)   == SetOp("VarSet", b, x, v)
-Apply(b, x, v) == SetOp("VarApply", b, x, v)
+Set(b, x, v, via)   == SetOp("VarSet", b, x, v, via)
+Apply(b, x, v, via) == SetOp("VarApply", b, x, v, via)
 
 \* b.Var(&x).Cancel(): lookup (possibly a fresh, never-set mocker) then Cancel
-Cancel(b, x) ==
-    /\ Owner[x] = b
-    /\ LET m == Lookup(b, x) IN
+Cancel(b, x, via) ==
+    /\ Owner[x] = b /\ CanUse(b, x, via)
+    /\ LET m == Handle(b, x, via) IN
        /\ val' = [val EXCEPT ![x] = CancelVal(m, @)]
        /\ mk' = [mk EXCEPT ![b][x] = [m EXCEPT !.canceled = TRUE]]
     /\ rval' = [rval EXCEPT ![x] = IF pre[b][x] = Unset THEN @ ELSE pre[b][x]]
     /\ pre' = [pre EXCEPT ![b][x] = Unset]
-    /\ Log([op |-> "VarCancel", b |-> b, x |-> x, obs |-> rval', panic |-> ""])
+    /\ Log([op |-> "VarCancel", b |-> b, x |-> x, via |-> via, obs |-> rval', panic |-> ""])
 
 \* Builder.Reset: Cancel on every cached mocker (canceled ones included; they re-write
 \* their captured origin, which equals the current contents under disjoint use)
@@ -85,8 +90,8 @@ Finish == Len(hist) = MaxOps /\ hist' = Append(hist, [op |-> "End"]) /\ UNCHANGE
 
 Next == \/ Finish
         \/ /\ Len(hist) < MaxOps
-           /\ \/ \E b \in B, x \in X, v \in V : Set(b, x, v) \/ Apply(b, x, v)
-              \/ \E b \in B, x \in X : Cancel(b, x)
+           /\ \/ \E b \in B, x \in X, v \in V, via \in Vias : Set(b, x, v, via) \/ Apply(b, x, v, via)
+              \/ \E b \in B, x \in X, via \in Vias : Cancel(b, x, via)
               \/ \E b \in B : Reset(b)
 
 Spec == Init /\ [][Next]_vars
